@@ -53,7 +53,7 @@ META = dict(
     ],
 )
 
-TIMEOUT = {"quick": 400, "thorough": 1500}
+TIMEOUT = {"quick": 900, "thorough": 1700}
 
 LINK_LOSSES = [
     ("peer_close", None),
@@ -114,9 +114,7 @@ def pinned(call, seed, ci):
     if call in ("open_session", "open_channel", "open_sftp_client"):
         out.append(mk(call, rot[(ci + seed) % 4], None, "during", at=AT_CHANNEL_REGISTERED))
     if call == "accept":
-        out.append(mk(call, "link_eof", None, "after"))
         out.append(mk(call, "local_close", None, "after"))
-        out.append(mk(call, "local_close", None, "before"))
         out.append(mk(call, "peer_close", None, "before"))
         out.append(mk(call, rot[(ci + seed) % 4], None, "during", at=AT_ACCEPT_WAIT))
     if call == "accept_x2":
@@ -124,7 +122,6 @@ def pinned(call, seed, ci):
         out.append(mk(call, "link_eof", None, "before", role="client"))
     if call.endswith("_svc"):
         out.append(mk(call, "link_eof", None, "before"))
-        out.append(mk(call, "local_close", None, "before"))
     return out
 
 
@@ -137,16 +134,18 @@ def quick_cases(ctx, calls):
     for call in calls:
         ci = names.index(call)
         spec = CALLS[call]
-        kinds = ["peer_close", "link_eof", "link_abrupt", "local_close", "garbage", "proxy_exit"]
-        for li, kind in enumerate(kinds):
+        # fixed at every seed: parked before a local close (the shutdown path that skips the
+        # wake-ups of run()), and the call made after a remote loss
+        out.append(mk(call, "local_close", None, "before"))
+        out.append(mk(call, "link_eof", None, "after"))
+        # rotating with the seed: the three timings over the three other remote kinds
+        for li, kind in enumerate(["peer_close", "link_abrupt", "garbage"]):
             timing = TIMINGS[(ci + li + ctx.seed) % 3]
             f = round(rng.random(), 3)
-            if kind == "proxy_exit":
-                out.append(mk(call, kind, PROXY_EXITS[(ci + ctx.seed) % 4], timing, medium="proxy", f=f))
-            elif kind == "garbage":
-                out.append(mk(call, kind, GARBAGE[(ci + ctx.seed) % 3], timing, f=f))
-            else:
-                out.append(mk(call, kind, None, timing, f=f))
+            var = GARBAGE[(ci + ctx.seed) % 3] if kind == "garbage" else None
+            out.append(mk(call, kind, var, timing, f=f))
+        out.append(mk(call, "proxy_exit", PROXY_EXITS[(ci + ctx.seed) % 4], TIMINGS[(ci + ctx.seed) % 3],
+                      medium="proxy", f=round(rng.random(), 3)))
         out.extend(pinned(call, ctx.seed, ci))
         if len(spec["roles"]) > 1:
             out.append(mk(call, ["peer_close", "local_close", "link_eof"][(ci + ctx.seed) % 3], None,
@@ -386,9 +385,9 @@ def run_batch(ctx, cases, workers, window, stop_at=None, samples_wanted=0):
         z = STATE.get("zygote")
         t0 = time.time()
         if z is not None and not z.dead:
-            res = z.call("vf.c13_case:run_case", a, timeout=8 * window + 240)
+            res = z.call("vf.c13_case:run_case", a, timeout=6 * window + 90)
         else:
-            res = iso.call("vf.c13_case:run_case", a, timeout=8 * window + 240)
+            res = iso.call("vf.c13_case:run_case", a, timeout=6 * window + 90)
         res["wall"] = round(time.time() - t0, 2)
         return a, res
 
